@@ -1,4 +1,5 @@
 """C16 — produce requests respect the size and count limits, and flush on time."""
+from decgen_tie import run_decgen
 
 
 def run(c):
@@ -17,6 +18,7 @@ def run(c):
     if not c.coq_make():
         return
     c.coq_properties()
+    run_decgen(c, "C16")
     b = c.go_build("c16corr")
     if not b:
         return
